@@ -47,6 +47,12 @@ def global_snapshot():
             "cwd": os.getcwd(), "registrations": regs, "mutable_defaults": defaults}
 
 
+def ts_snapshot(ts):
+    return (sorted(t.__name__ for t in ts.types),
+            sorted((u.__name__, v.__name__, d.get("style")) for u, v, d in ts.relation_graph.edges(data=True)),
+            sorted((u.__name__, v.__name__) for u, v in ts.base_graph.edges()))
+
+
 def probe(ts):
     out = []
     for r in PROBES:
@@ -126,13 +132,31 @@ def history_check(rnd, n_hist, hist_len):
         try:
             g0 = global_snapshot()
             pool = [ts]
+            pool_snaps = {0: ts_snapshot(ts)}
             for desc, thunk in random_history(rnd, pool, hist_len):
+                # a caller running with (some) warnings promoted to errors (-W error::FutureWarning ...): calls may raise
+                strict = rnd.choice([None, None, None, FutureWarning, DeprecationWarning, UserWarning, Warning])
                 try:
                     with warnings.catch_warnings():
                         warnings.simplefilter("ignore")
+                        if strict is not None:
+                            warnings.filterwarnings("error", category=strict)
                         thunk()
-                except Exception:  # noqa  (C09 / C13)
+                except (Exception, Warning):  # noqa  (C09 / C13; or the promoted warning)
                     pass
+                if strict is not None:
+                    desc += f" [-W error::{strict.__name__}]"
+                # every typeset in the pool keeps the types and graphs it was built with (operands are values)
+                for i, t_ in enumerate(pool):
+                    sn = ts_snapshot(t_)
+                    if i not in pool_snaps:
+                        pool_snaps[i] = sn
+                    elif pool_snaps[i] != sn:
+                        part = [k for k in range(3) if pool_snaps[i][k] != sn[k]]
+                        fails.append({"what": f"typeset #{i} of the history was changed by `{desc}` (which did not construct it): " +
+                                              "; ".join(f"{('types', 'relation graph', 'base graph')[k]}: added {[x for x in sn[k] if x not in pool_snaps[i][k]][:6]}, removed {[x for x in pool_snaps[i][k] if x not in sn[k]][:6]}" for k in part),
+                                      "class": "typeset-mutated", "call": desc, "history": h})
+                        pool_snaps[i] = sn
                 g1 = global_snapshot()
                 if g1 != g0:
                     diff = [k for k in g0 if g0[k] != g1[k]]
